@@ -142,4 +142,42 @@ theorem exec_frame_log {m0 : Mem} (ops : List Op) {s : St} (hc : CInv m0 s)
   | nil => exact hf
   | cons op rest ih => exact ih (step_cinv hc op) (step_frame_log hc hf op)
 
+/-! ### what a writer operation stores is what it reports -/
+
+theorem writerIn_reported (b : IoBufs) (w : World) (hp : 0 < w.p) (hin : InMem w.mem (addrs b.segs))
+    (hov : b.consumed + total b.segs < USIZE) (h : Nat) :
+    (∀ data n, (VirtioW.write b w data).res = .ok n → n = data.length ∧ writerIn b w (.wr h data) = data)
+    ∧ (∀ data e, (VirtioW.write b w data).res = .error e → writerIn b w (.wr h data) = [])
+    ∧ (∀ datas n, (VirtioW.writeVectored b w datas).res = .ok n → writerIn b w (.wv h datas) = datas.flatten.take n)
+    ∧ (∀ count at_ sc n, (VirtioW.writeFrom b w sc count at_).res = .ok n →
+        n ≤ count ∧ writerIn b w (.wf h count at_ sc) = patBytes sc.seed (at_.getD sc.pos) n)
+    ∧ (∀ count at_ sc e, (VirtioW.writeFrom b w sc count at_).res = .error e → writerIn b w (.wf h count at_ sc) = [])
+    ∧ (∀ count sc, (VirtioW.writeAllFrom b w sc count).res = .ok () →
+        writerIn b w (.wa h count sc) = patBytes sc.seed sc.pos count) := by
+  refine ⟨?_, ?_, ?_, ?_, ?_, ?_⟩
+  · intro data n hn
+    obtain ⟨e1, e2⟩ := (vwrite_delta b w data hp hov).1 n hn
+    simp only [writerIn]
+    rw [e1, e2, List.take_length]
+    exact ⟨rfl, rfl⟩
+  · intro data e he
+    simp only [writerIn]
+    rw [(vwrite_delta b w data hp hov).2 e he, List.take_zero]
+  · intro datas n hn
+    simp only [writerIn]
+    rw [writeVectored_count b w datas hp hin hov n hn]
+  · intro count at_ sc n hn
+    obtain ⟨_, _, _, dok, dle, _⟩ := writeFrom_wrc b w sc count at_ hp hin hov
+    simp only [writerIn]
+    have := dok n hn
+    rw [this] at dle ⊢
+    exact ⟨dle, rfl⟩
+  · intro count at_ sc e he
+    obtain ⟨_, _, _, _, _, derr⟩ := writeFrom_wrc b w sc count at_ hp hin hov
+    simp only [writerIn]
+    rw [derr e he]; rfl
+  · intro count sc hok
+    simp only [writerIn]
+    rw [writeAllFrom_count b w sc count hp hin hov hok]
+
 end Fbr.Xport
